@@ -1065,6 +1065,7 @@ func (is *IndexSnapshot) CloseCopyReader() error {
 			delete(is.parent.copyScheduled, fileName)
 		}
 	}
+	verifCopy(is.parent, "copy_end", is)
 	is.parent.rootLock.Unlock()
 	// close the index snapshot normally
 	return is.Close()
